@@ -1062,6 +1062,87 @@ def _lapp(kind, x):
 ONE = {(): Fraction(1)}
 
 
+
+def anchoring_form(fn):
+    """(True, '') when cspline_eval_gs returns composition(first(gs), cspline_eval_vs(vs, Bcum, u, vel, acc, jer)) with
+    vs = gs | pairwise_transform((x1, x2) -> x2 (-) x1); (False, reason) when a recognised part is definitely different;
+    (None, reason) when the shape is not understood"""
+    ps = [p.get("name") for p in A.params(fn)]
+    if len(ps) != 6:
+        return None, "%d parameters" % len(ps)
+    gsn, bn, un, veln, accn, jern = ps
+    locs = {}
+    lam = {}
+    for x in A.walk_nolambda(A.body(fn)):
+        if x.get("kind") == "VarDecl" and A.kids(x):
+            init = A.strip(A.kids(x)[-1])
+            if init.get("kind") == "LambdaExpr":
+                lam[x.get("name")] = init
+            else:
+                locs[x.get("name")] = A.to_expr(init)
+    rets = [x for x in A.walk_nolambda(A.body(fn)) if x.get("kind") == "ReturnStmt"]
+    if len(rets) != 1:
+        return None, "%d return statements" % len(rets)
+    r = A.to_expr(A.kids(rets[0])[0])
+
+    def nm(e):
+        return str(e[1]).split("::")[-1].split("<")[0]
+    if not (r[0] == "call" and nm(r) == "composition" and len(r[2]) == 2):
+        if r[0] == "op" and r[1] == "*":
+            r = ("call", "composition", [r[2], r[3]])
+        else:
+            return None, "return expression %s" % A.show(r)[:60]
+    first, rest = r[2]
+    # anchor: *begin(gs) / gs.front() / gs[0]
+    f = first
+    is_first = ((f[0] == "un" and f[1] == "*" and f[2][0] == "call" and nm(f[2]) in ("begin", "cbegin") and f[2][2] and f[2][2][0][:2] == ("ref", gsn))
+                or (f[0] == "mcall" and f[1][:2] == ("ref", gsn) and f[2] == "front")
+                or (f[0] == "sub" and f[1][:2] == ("ref", gsn) and f[2] == [("num", 0)]))
+    if not is_first:
+        return False, "the anchor is %s, not the first control point" % A.show(first)[:40]
+    if not (rest[0] == "call" and nm(rest) == "cspline_eval_vs"):
+        return None, "second factor %s" % A.show(rest)[:60]
+    args = rest[2]
+    if len(args) != 6:
+        return False, "cspline_eval_vs is called with %d arguments: a derivative output is not forwarded" % len(args)
+    want = [None, bn, un, veln, accn, jern]
+    for i in range(1, 6):
+        if not (args[i][0] == "ref" and args[i][1] == want[i]):
+            return False, "argument %d of cspline_eval_vs is %s, expected %s" % (i + 1, A.show(args[i])[:30], want[i])
+    v = args[0]
+    while v[0] == "ref" and v[1] in locs:
+        v = locs[v[1]]
+    if not (v[0] == "op" and v[1] == "|" and v[2][:2] == ("ref", gsn) and v[3][0] == "call" and nm(v[3]) == "pairwise_transform" and len(v[3][2]) == 1):
+        return None, "differences are computed as %s" % A.show(v)[:60]
+    fnarg = v[3][2][0]
+    if not (fnarg[0] == "ref" and fnarg[1] in lam):
+        return None, "difference functor %s" % A.show(fnarg)[:40]
+    L = lam[fnarg[1]]
+    def raw(n):
+        yield n
+        for c_ in n.get("inner", []) or []:
+            if isinstance(c_, dict):
+                yield from raw(c_)
+    ops = [x for x in raw(L) if x.get("kind") == "CXXMethodDecl" and x.get("name") == "operator()"]
+    lps = [p_.get("name") for p_ in ops[0].get("inner", []) if p_.get("kind") == "ParmVarDecl"] if ops else []
+    lb = A.lambda_body(L)
+    lrets = [x for x in A.walk(lb) if x.get("kind") == "ReturnStmt"] if lb is not None else []
+    if len(lps) != 2 or len(lrets) != 1:
+        return None, "difference lambda shape"
+    e = A.to_expr(A.kids(lrets[0])[0])
+    if e[0] == "call" and nm(e) == "rminus" and len(e[2]) == 2:
+        a1, a2 = e[2]
+    elif e[0] == "op" and e[1] == "-":
+        a1, a2 = e[2], e[3]
+    else:
+        return None, "difference lambda returns %s" % A.show(e)[:40]
+    if a1[:2] == ("ref", lps[1]) and a2[:2] == ("ref", lps[0]):
+        return True, ""
+    if a1[:2] == ("ref", lps[0]) and a2[:2] == ("ref", lps[1]):
+        return False, "the differences are g_{i-1} (-) g_i (arguments of the difference swapped)"
+    return None, "difference lambda arguments"
+
+
 def check_x1(rep, idx_cs):
     rep.rule("X1", "cspline_eval_vs: vel/acc/jerk follow the body-derivative recursion of the cumulative product (free Lie-algebra normal form)", minimum=3)
     fns = funcs(idx_cs, "cspline_eval_vs")
@@ -1333,15 +1414,14 @@ def check_x1(rep, idx_cs):
     # cspline_eval_gs anchors the same curve at g_0 with v_i = g_i (-) g_{i-1}
     gs = funcs(idx_cs, "cspline_eval_gs")
     if len(gs) == 1:
-        t = A.ntext(A.body(gs[0].node))
-        sub_ok = re.search(r"sub=\[\]\(constauto&x1,constauto&x2\)\{returnrminus\(x2,x1\);\}", t) is not None
-        vs_ok = "vs=gs|utils::views::pairwise_transform(sub)" in t
-        ret_ok = re.search(r"returncomposition\(\*std::ranges::begin\(gs\),cspline_eval_vs<K,G>\(vs,Bcum,u,vel,acc,jer\)\);", t) is not None
-        ok = sub_ok and vs_ok and ret_ok
-        rep.instance("X1", "cspline_eval_gs", "anchoring", ok=ok, nontrivial=True, sample={"file": fe.rel(gs[0].file), "line": gs[0].line})
-        if not ok:
-            rep.violation(Finding("X1", "cspline_eval_gs", "anchoring",
-                                  "cspline_eval_gs is not g_0 * cspline_eval_vs(v_i = g_i (-) g_{i-1}) with all derivative outputs forwarded "
-                                  "(differences=%s, pairwise=%s, anchored product=%s)" % (sub_ok, vs_ok, ret_ok), gs[0].file, gs[0].line))
+        verdict, why = anchoring_form(gs[0].node)
+        if verdict is None:
+            rep.broke("X1: cspline_eval_gs has a shape the anchoring rule does not understand: %s" % why)
+        else:
+            rep.instance("X1", "cspline_eval_gs", "anchoring", ok=verdict, nontrivial=True, sample={"file": fe.rel(gs[0].file), "line": gs[0].line})
+            if not verdict:
+                rep.violation(Finding("X1", "cspline_eval_gs", "anchoring",
+                                      "cspline_eval_gs is not g_0 * cspline_eval_vs(v_i = g_i (-) g_{i-1}) with all derivative outputs forwarded: %s" % why,
+                                      gs[0].file, gs[0].line))
     else:
         rep.broke("X1: cspline_eval_gs not found")
